@@ -3,6 +3,7 @@ package c02
 import (
 	"fmt"
 	"sync"
+	"sync/atomic"
 	"time"
 
 	"verif/engine"
@@ -54,7 +55,58 @@ func RaceBody(reps int) {
 	fmt.Printf("RACE-RUNS %d\n", runs)
 }
 
+// ColdStartBody is run by the -race build in a fresh process: the very first use of the replay cache in the process is
+// concurrent - 8 goroutines present the same authenticator, then a second one - so that the cache's lazy set-up itself
+// is what runs in parallel. Exactly one presentation of each authenticator may be called "not a replay".
+func ColdStartBody() {
+	vclock.Virtual(T0)
+	for round, o := range []Op{P("cold", 0, "S1"), P("cold", time.Millisecond, "S1")} {
+		var wg sync.WaitGroup
+		var fresh int64
+		start := make(chan struct{})
+		for i := 0; i < 8; i++ {
+			wg.Add(1)
+			go func() {
+				defer wg.Done()
+				sn, a := authenticator(o)
+				<-start
+				if !service.GetReplayCache(skew).IsReplay(sn, a) {
+					atomic.AddInt64(&fresh, 1)
+				}
+			}()
+		}
+		close(start)
+		engine.WaitOrBlocked(&wg, "C02 cold start", round)
+		if fresh != 1 {
+			fmt.Printf("RACE-INVARIANT cold-start:accepted-%d-times\tround %d: %d of 8 concurrent first presentations of one authenticator were not called a replay\n", fresh, round, fresh)
+		}
+	}
+	fmt.Printf("RACE-RUNS 1\n")
+}
+
 func racePass(c *engine.Ctx) {
+	// fresh processes whose first use of the cache is concurrent (the lazy set-up runs once per process)
+	cold := 12
+	if c.Thorough() {
+		cold = 60
+	}
+	for i := 0; i < cold; i++ {
+		reports, _, err := engine.RunRace("C02COLD")
+		if err != nil {
+			engine.Fatal("%v", err)
+		}
+		for _, r := range reports {
+			c.Violate("race", "race:cold-start:"+r.Key, map[string]interface{}{"report": r.Text}, map[string]interface{}{"cmd": "vcheck-race C02COLD"})
+		}
+		for _, iv := range engine.RaceInvariant {
+			d := ""
+			if len(iv) > 1 {
+				d = iv[1]
+			}
+			c.Violate("race", "free-running:"+iv[0], map[string]interface{}{"what": d}, map[string]interface{}{"cmd": "vcheck-race C02COLD"})
+		}
+	}
+	c.Cov["cold_start_processes"] = cold
 	reps := 60
 	if c.Thorough() {
 		reps = 400
